@@ -666,6 +666,9 @@ type c13RWMutexSink struct {
 	*overlapSink
 }
 
+// c13View is a second WriteSyncer value in front of the same sink.
+type c13View struct{ zapcore.WriteSyncer }
+
 // overlapSink trips when two calls overlap.
 type overlapSink struct {
 	inUse    atomic.Int32
@@ -709,10 +712,33 @@ func propC13LockConcurrent(t *rapid.T) {
 	// what sits between the lock and the (not thread-safe) sink: nothing, the combined-syncer constructor, or a
 	// BufferedWriteSyncer with a tiny buffer (writes larger than it go through, syncs flush): in every case all
 	// calls that reach the sink are mutually exclusive
-	wrap := rapid.SampledFrom([]string{"direct", "direct", "combine", "lock(buffered)", "combine(buffered)", "buffered(lock)"}).Draw(t, "between")
+	wrap := rapid.SampledFrom([]string{"direct", "direct", "combine", "lock(buffered)", "combine(buffered)", "buffered(lock)",
+		"lock(multi(lock,lock))", "combine(lock,lock)", "lock(multi(shared lock,other))", "combine(shared lock,other)"}).Draw(t, "between")
 	var lk zapcore.WriteSyncer
+	var direct zapcore.WriteSyncer // a second way to the sink that some goroutines use instead (nil: none)
+	perCall := 1                   // calls reaching the sink per call made
 	var bws *zapcore.BufferedWriteSyncer
 	switch wrap {
+	case "lock(multi(lock,lock))", "combine(lock,lock)":
+		// both members end in the same sink and each has a lock of its own: the lock around the group is what keeps
+		// one caller's second member write apart from another caller's first
+		a, b := zapcore.Lock(raw), zapcore.Lock(&c13View{raw})
+		if wrap == "combine(lock,lock)" {
+			lk = zap.CombineWriteSyncers(a, b)
+		} else {
+			lk = zapcore.Lock(zapcore.NewMultiWriteSyncer(a, b))
+		}
+		perCall = 2
+	case "lock(multi(shared lock,other))", "combine(shared lock,other)":
+		// a locked syncer that is a member of a locked group AND used on its own: both ways hold ITS lock
+		shared := zapcore.Lock(raw)
+		other := zapcore.Lock(zapcore.AddSync(io.Discard))
+		if wrap == "combine(shared lock,other)" {
+			lk = zap.CombineWriteSyncers(shared, other)
+		} else {
+			lk = zapcore.Lock(zapcore.NewMultiWriteSyncer(other, shared))
+		}
+		direct = shared
 	case "direct":
 		lk = zapcore.Lock(raw)
 	case "combine":
@@ -732,6 +758,10 @@ func propC13LockConcurrent(t *rapid.T) {
 		wg.Add(1)
 		go func(i int) {
 			defer wg.Done()
+			lk := lk
+			if direct != nil && i%2 == 1 {
+				lk = direct
+			}
 			for j := 0; j < per; j++ {
 				if (i+j)%syncEvery == 0 {
 					_ = lk.Sync()
@@ -748,8 +778,8 @@ func propC13LockConcurrent(t *rapid.T) {
 	if n := sink.overlaps.Load(); n != 0 {
 		t.Fatalf("%d overlapping Write/Sync calls reached the sink (%s, sink %s)", n, wrap, shape)
 	}
-	if bws == nil && sink.writes.Load()+sink.syncs.Load() != int64(g*per) {
-		t.Fatalf("sink saw %d calls, want %d", sink.writes.Load()+sink.syncs.Load(), g*per)
+	if bws == nil && sink.writes.Load()+sink.syncs.Load() != int64(g*per*perCall) {
+		t.Fatalf("sink saw %d calls, want %d", sink.writes.Load()+sink.syncs.Load(), g*per*perCall)
 	}
 	statCase("C13", true, fmt.Sprintf("lock|%s|g%d per%d s%d", wrap, g, per/10, syncEvery), "concurrent Lock", "between lock and sink: "+wrap)
 }
